@@ -206,6 +206,11 @@ func (vr *VerifiableReader) cacheWithReader(ctx context.Context, currentDepth in
 			if !ok {
 				break
 			}
+			if chunkOffset < 0 || chunkSize <= 0 {
+				// Chunk information comes from the (untrusted) TOC.
+				rErr = fmt.Errorf("invalid chunk of %q (off:%d,size:%d)", name, chunkOffset, chunkSize)
+				return false
+			}
 			nr += chunkSize
 
 			if err := sem.Acquire(ctx, 1); err != nil {
@@ -234,6 +239,10 @@ func (vr *VerifiableReader) readAndCache(id uint32, fr io.Reader, chunkOffset, c
 
 	if retErr != nil {
 		vr.storeLastVerifyErr(retErr)
+	}
+
+	if chunkOffset < 0 || chunkSize <= 0 {
+		return fmt.Errorf("invalid chunk (off:%d,size:%d)", chunkOffset, chunkSize)
 	}
 
 	// Check if it already exists in the cache
@@ -361,6 +370,9 @@ func (gr *reader) OpenFile(id uint32) (io.ReaderAt, error) {
 	}
 	var fr metadata.File
 	fr, err := gr.r.OpenFileWithPreReader(id, func(nid uint32, chunkOffset, chunkSize int64, chunkDigest string, r io.Reader) error {
+		if chunkOffset < 0 || chunkSize <= 0 {
+			return fmt.Errorf("invalid chunk (off:%d,size:%d)", chunkOffset, chunkSize)
+		}
 		// Check if it already exists in the cache
 		cacheID := genID(nid, chunkOffset, chunkSize)
 		if r, err := gr.cache.Get(cacheID); err == nil {
@@ -434,6 +446,11 @@ func (sf *file) ReadAt(p []byte, offset int64) (int, error) {
 		chunkOffset, chunkSize, chunkDigestStr, ok := sf.fr.ChunkEntryForOffset(offset + int64(nr))
 		if !ok {
 			break
+		}
+		if cur := offset + int64(nr); chunkOffset < 0 || chunkSize <= 0 || cur < chunkOffset || chunkSize <= cur-chunkOffset {
+			// Chunk information comes from the (untrusted) TOC. A chunk that doesn't
+			// cover the requested offset cannot be served.
+			return 0, fmt.Errorf("invalid chunk (off:%d,size:%d) for offset %d", chunkOffset, chunkSize, cur)
 		}
 		var (
 			id           = genID(sf.id, chunkOffset, chunkSize)
@@ -515,6 +532,9 @@ func (sf *file) GetPassthroughFd(mergeBufferSize int64, mergeWorkerCount int) (u
 		chunkOffset, chunkSize, digestStr, ok := sf.fr.ChunkEntryForOffset(offset)
 		if !ok {
 			break
+		}
+		if chunkOffset < 0 || chunkSize <= 0 || offset < chunkOffset || chunkSize <= offset-chunkOffset {
+			return 0, nil, fmt.Errorf("invalid chunk (off:%d,size:%d) for offset %d", chunkOffset, chunkSize, offset)
 		}
 		// Check if any chunk size exceeds merge buffer size to avoid bounds out of range
 		if chunkSize > mergeBufferSize {
